@@ -23,12 +23,14 @@ import (
 	"github.com/spq/pkappa2/verifx/csvc"
 	"github.com/spq/pkappa2/verifx/c18"
 	"github.com/spq/pkappa2/verifx/c19"
+	"github.com/spq/pkappa2/verifx/c20"
 )
 
 func main() {
 	prop := flag.String("prop", "", "property id")
 	tier := flag.String("tier", "quick", "quick|thorough")
 	c12Journal := flag.String("c12-journal", "", "internal: run a C12 history in VERIF_WORLD_DIR (under strace)")
+	c20Child := flag.Int("c20-child", -1, "internal: run one C20 pair (race build)")
 	svcReplay := flag.String("svc-replay", "", "scenario|event;event;... : replay one service history and print every state")
 	flag.Parse()
 	log.SetOutput(io.Discard) // the code under test logs every import/merge
@@ -36,6 +38,9 @@ func main() {
 		*tier = t
 	}
 	var code int
+	if *c20Child >= 0 {
+		os.Exit(c20.Child(*c20Child))
+	}
 	if *c12Journal != "" {
 		os.Exit(c12.JournalChild(*c12Journal))
 	}
@@ -80,6 +85,8 @@ func main() {
 		code = c18.Run(*tier)
 	case "C19":
 		code = c19.Run(*tier)
+	case "C20":
+		code = c20.Run(*tier)
 	default:
 		fmt.Fprintf(os.Stderr, "unknown property %q\n", *prop)
 		code = 2
